@@ -238,6 +238,33 @@ pub fn verify_crafted(ctx: &Ctx, rep: &mut Report) {
     }
     go::<F512>(ctx, rep);
     go::<F1024>(ctx, rep);
+    // call sequences over related keys of the two parameter sets (see C02): panic monitor only
+    for seq in super::c02::related_variant_sequences(ctx.seed, ctx.sz(6, 60)) {
+        let seq_ref = &seq;
+        // each sequence in a fresh thread (see C02)
+        let out = std::thread::scope(|s| {
+            s.spawn(move || {
+                let mut rep = Report::new();
+                for (is1024, class, msg, sig, pkb) in seq_ref {
+                    if *is1024 {
+                        if let Ok(pk) = F1024::pk_from_bytes(pkb) {
+                            verify_one::<F1024>(class, msg, sig, &pk, pkb, &mut rep);
+                        }
+                    } else if let Ok(pk) = F512::pk_from_bytes(pkb) {
+                        verify_one::<F512>(class, msg, sig, &pk, pkb, &mut rep);
+                    }
+                }
+                rep
+            })
+            .join()
+        });
+        match out {
+            Ok(r) => rep.merge(r),
+            Err(_) => rep.inconclusive("a sequence thread died".into()),
+        }
+        rep.count("related_variant_sequences", 1);
+    }
+    rep.require("related_variant_sequences", 20);
     rep.sample(json!({"what": "verify on hash-aware crafted triples", "layouts": ["spread", "front-loaded", "back-loaded", "two-step-block", "all-s1-at-range-edge", "exact-norm", "lopsided"]}));
     rep.require("crafted_triples", 50);
 }
